@@ -218,8 +218,9 @@ pub struct Listener {
 
 impl Listener {
     pub fn bind() -> Listener {
-        let p = super::free_port();
-        let l = TcpListener::bind(SocketAddrV4::new(Ipv4Addr::LOCALHOST, p)).expect("harness: bind target");
+        // bound once and kept: no window in which another process could take the port
+        let l = TcpListener::bind(SocketAddrV4::new(Ipv4Addr::LOCALHOST, 0)).expect("harness: bind target");
+        let p = l.local_addr().expect("harness: local_addr").port();
         l.set_nonblocking(true).ok();
         Listener { port: p, l }
     }
@@ -312,8 +313,8 @@ pub fn reply_for(target_tag: u8, payload: &[u8]) -> Vec<u8> {
 
 impl UdpTarget {
     pub fn spawn(tag: u8, echo: bool) -> UdpTarget {
-        let port = super::free_port();
-        let s = UdpSocket::bind(SocketAddrV4::new(Ipv4Addr::LOCALHOST, port)).expect("harness: udp target bind");
+        let s = UdpSocket::bind(SocketAddrV4::new(Ipv4Addr::LOCALHOST, 0)).expect("harness: udp target bind");
+        let port = s.local_addr().expect("harness: local_addr").port();
         s.set_read_timeout(Some(Duration::from_millis(30))).ok();
         let got = Arc::new(Mutex::new(vec![]));
         let stop = Arc::new(AtomicBool::new(false));
